@@ -195,6 +195,7 @@ func genCase(t *rapid.T) (*sem.Case, *sgen.G) {
 	g := sgen.New(t)
 	g.Probes = true
 	g.Loops = true
+	g.EmptyBlocks = true
 	g.Exit = rapid.IntRange(0, 4).Draw(t, "exit") == 0
 	g.AddKey = rapid.Bool().Draw(t, "addkey")
 	g.Hostile = rapid.SampledFrom([]int{0, 0, 8}).Draw(t, "hostile")
@@ -275,6 +276,130 @@ func TestTruthinessTable(t *testing.T) {
 		}
 	}
 	evid.Exhaustive("truthiness classes x {if, elif, for condition, point key}", n)
+}
+
+// TestLoopScopeTable: every loop kind x escape kind x escape moment: a body-local name is probed before it is assigned in
+// each pass (it must be nil / the point's key in every pass), assigned, and the pass ends normally, by continue or by break.
+func TestLoopScopeTable(t *testing.T) {
+	type loopKind struct {
+		name string
+		mk   func(body []*gen.Node) []*gen.Node
+		cnt  *gen.Node // expression giving the current pass number (1-based) inside the body
+	}
+	inc := func(n string) *gen.Node { return gen.NSet(n, gen.NBin("+", id(n), gen.NInt(1))) }
+	pass := id("pass")
+	withPass := func(body []*gen.Node) []*gen.Node { return append([]*gen.Node{inc("pass")}, body...) }
+	kinds := []loopKind{
+		{"for-in-list", func(b []*gen.Node) []*gen.Node {
+			return []*gen.Node{gen.NForIn("e", gen.NList(gen.NInt(10), gen.NInt(20), gen.NInt(30)), withPass(b))}
+		}, pass},
+		{"for-in-string", func(b []*gen.Node) []*gen.Node { return []*gen.Node{gen.NForIn("e", gen.NStr("aé!"), withPass(b))} }, pass},
+		{"for-in-point-string", func(b []*gen.Node) []*gen.Node { return []*gen.Node{gen.NForIn("e", id("message"), withPass(b))} }, pass},
+		{"for-in-map1", func(b []*gen.Node) []*gen.Node {
+			return []*gen.Node{gen.NForIn("e", gen.NMap(gen.NStr("k"), gen.NInt(1)), withPass(b))}
+		}, pass},
+		{"for-in-list-var", func(b []*gen.Node) []*gen.Node {
+			return []*gen.Node{gen.NSet("lv", gen.NList(gen.NInt(1), gen.NInt(2), gen.NInt(3))), gen.NForIn("e", id("lv"), withPass(b))}
+		}, pass},
+	}
+	for shape := 0; shape < 8; shape++ {
+		shape := shape
+		kinds = append(kinds, loopKind{fmt.Sprintf("for-shape-%d", shape), func(b []*gen.Node) []*gen.Node {
+			var pre []*gen.Node
+			var init, cond, loop *gen.Node
+			body := []*gen.Node{}
+			if shape&1 != 0 {
+				init = gen.NSet("i", gen.NInt(0))
+			} else {
+				pre = append(pre, gen.NSet("i", gen.NInt(0)))
+			}
+			if shape&4 != 0 {
+				loop = inc("i")
+			} else {
+				body = append(body, inc("i"))
+			}
+			if shape&2 != 0 {
+				cond = gen.NBin("<", id("i"), gen.NInt(3))
+			} else if shape&4 != 0 {
+				body = append(body, gen.NIf([]*gen.Node{gen.NBin(">=", id("i"), gen.NInt(3))}, [][]*gen.Node{{gen.NBreak()}}, nil, false))
+			} else {
+				body = append(body, gen.NIf([]*gen.Node{gen.NBin(">", id("i"), gen.NInt(3))}, [][]*gen.Node{{gen.NBreak()}}, nil, false))
+			}
+			body = append(body, withPass(b)...)
+			return append(pre, gen.NFor(init, cond, loop, body))
+		}, pass})
+	}
+	n := 0
+	for _, k := range kinds {
+		for _, esc := range []string{"none", "continue", "break"} {
+			for when := 1; when <= 3; when++ {
+				for _, nested := range []bool{false, true} {
+					var escStmt *gen.Node
+					switch esc {
+					case "continue":
+						escStmt = gen.NContinue()
+					case "break":
+						escStmt = gen.NBreak()
+					}
+					body := []*gen.Node{
+						gen.NCall("probe", gen.NStr("pre"), id("e"), id("loc"), id("k1")),
+						gen.NSet("loc", gen.NBin("*", k.cnt.Clone(), gen.NInt(100))),
+						gen.NSet("k1", gen.NStr("shadow")),
+					}
+					if escStmt != nil {
+						cond := gen.NBin("==", k.cnt.Clone(), gen.NInt(int64(when)))
+						if nested {
+							body = append(body, gen.NIf([]*gen.Node{gen.NBool(true)}, [][]*gen.Node{{gen.NIf([]*gen.Node{cond}, [][]*gen.Node{{escStmt}}, nil, false)}}, nil, false))
+						} else {
+							body = append(body, gen.NIf([]*gen.Node{cond}, [][]*gen.Node{{escStmt}}, nil, false))
+						}
+					} else if when > 1 || nested {
+						continue
+					}
+					body = append(body, gen.NCall("probe", gen.NStr("post"), id("e"), id("loc"), id("k1")))
+					prog := append([]*gen.Node{gen.NSet("pass", gen.NInt(0))}, k.mk(body)...)
+					prog = append(prog, gen.NCall("probe", gen.NStr("after"), id("e"), id("loc"), id("k1"), id("i"), id("pass")))
+					// the same loop nested inside an outer loop: break/continue must stay in the inner one
+					outer := []*gen.Node{gen.NForIn("o", gen.NList(gen.NInt(1), gen.NInt(2)), append(gen.CloneProg(prog), gen.NCall("probe", gen.NStr("outer"), id("o"))))}
+					for vi, p := range [][]*gen.Node{prog, outer} {
+						c := sem.NewCase(gen.FixAll(gen.CloneProg(p)))
+						c.Fields = map[string]any{"message": "xyz", "k1": "from point"}
+						judge(t, "loopscope", c, true, "loop-scope-table/"+k.name, "escape/"+esc)
+						_ = vi
+						n++
+					}
+				}
+			}
+		}
+	}
+	evid.Exhaustive("loop kind x escape x moment x nesting", n)
+}
+
+// TestEmptyBranchTable: a truthy branch with an empty block still ends the statement.
+func TestEmptyBranchTable(t *testing.T) {
+	n := 0
+	conds := []*gen.Node{gen.NBool(true), gen.NInt(1), gen.NStr("x"), gen.NBool(false), gen.NInt(0), gen.NNil()}
+	for _, c1 := range conds {
+		for _, c2 := range conds {
+			for mask := 0; mask < 8; mask++ { // which of block1, block2, else are empty
+				blk := func(label string, empty bool) []*gen.Node {
+					if empty {
+						return nil
+					}
+					return []*gen.Node{gen.NCall("probe", gen.NStr(label))}
+				}
+				prog := []*gen.Node{
+					gen.NIf([]*gen.Node{c1.Clone(), c2.Clone()}, [][]*gen.Node{blk("b1", mask&1 != 0), blk("b2", mask&2 != 0)}, blk("else", mask&4 != 0), true),
+					gen.NCall("probe", gen.NStr("end")),
+					gen.NForIn("x", gen.NList(gen.NInt(1), gen.NInt(0), gen.NInt(2)), []*gen.Node{gen.NIf([]*gen.Node{id("x")}, [][]*gen.Node{blk("t", mask&1 != 0)}, blk("f", mask&2 != 0), true)}),
+				}
+				cs := sem.NewCase(gen.FixAll(prog))
+				judge(t, "emptybranch", cs, true, "empty-branch-table")
+				n++
+			}
+		}
+	}
+	evid.Exhaustive("if/elif/else with empty blocks", n)
 }
 
 func TestReplays(t *testing.T) {
